@@ -4,6 +4,7 @@ package layer4
 // channel capacities, handlers that return quickly / close early / read datagrams in pieces.
 
 import (
+	"os"
 	"bytes"
 	"fmt"
 	"net"
@@ -278,5 +279,126 @@ func TestVerifUDP(t *testing.T) {
 		}
 		stats["mode="+h.mode]++
 	}
+	// the loop parked on a full queue while many associations end: it must come free when the busy handler closes
+	npark := 2
+	if os.Getenv("VERIF_TIER") == "thorough" {
+		npark = 10
+	}
+	for k := 0; k < npark; k++ {
+		others := r.pick(10, 12, 14)
+		burst := r.pick(6, 8, 12)
+		fmt.Fprintf(out.cases, "udp park others=%d burst=%d\n", others, burst)
+		out.cases.Flush()
+		sig, desc := udpParkScenario(others, burst)
+		if sig != "" {
+			out.fail(n+k, sig, desc)
+			fmt.Fprintf(out.out, "FAIL %s\n", sig)
+		} else {
+			fmt.Fprintf(out.out, "ok park\n")
+		}
+		stats["park scenarios"]++
+	}
 	out.stats(stats)
+}
+
+// udpParkScenario: `others` associations whose handlers wait, one busy association whose queue is filled by a burst (the loop
+// parks on it), then the waiting handlers end (more closures than closeCh holds), then the busy handler ends. Afterwards a
+// fresh client and the formerly busy client must be served.
+func udpParkScenario(others, burst int) (sig, desc string) {
+	pc, err := net.ListenPacket("udp", "127.0.0.1:0")
+	if err != nil {
+		return "", ""
+	}
+	server := &Server{logger: zap.NewNop()}
+	gateOthers, gateBusy := make(chan struct{}), make(chan struct{})
+	var started sync.WaitGroup
+	started.Add(others + 1)
+	route := &Route{}
+	route.middleware = append(route.middleware, wrapHandler(NextHandlerFunc(func(cx *Connection, _ Handler) error {
+		buf := make([]byte, 2048)
+		k, err := cx.Read(buf)
+		if err != nil {
+			return nil
+		}
+		tag := strings.TrimSpace(string(buf[:k]))
+		switch {
+		case strings.HasPrefix(tag, "other"):
+			started.Done()
+			<-gateOthers
+			return nil
+		case tag == "busy":
+			started.Done()
+			<-gateBusy
+			return nil
+		}
+		cx.Write([]byte("R:" + tag + "\n"))
+		return nil
+	})))
+	server.compiledRoute = RouteList{route}.Compile(zap.NewNop(), time.Second, nopHandler{})
+	serveDone := make(chan error, 1)
+	go func() { serveDone <- server.servePacket(pc) }()
+	defer func() {
+		pc.Close()
+		select {
+		case <-serveDone:
+		case <-time.After(2 * time.Second):
+		}
+	}()
+	dial := func() net.Conn { c, _ := net.Dial("udp", pc.LocalAddr().String()); return c }
+	var conns []net.Conn
+	defer func() {
+		for _, c := range conns {
+			c.Close()
+		}
+	}()
+	for i := 0; i < others; i++ {
+		c := dial()
+		conns = append(conns, c)
+		c.Write([]byte(fmt.Sprintf("other%d\n", i)))
+	}
+	busy := dial()
+	conns = append(conns, busy)
+	busy.Write([]byte("busy\n"))
+	waitCh := make(chan struct{})
+	go func() { started.Wait(); close(waitCh) }()
+	select {
+	case <-waitCh:
+	case <-time.After(3 * time.Second):
+		close(gateOthers)
+		close(gateBusy)
+		return "", "" // the setup did not come up (loaded machine): nothing to judge
+	}
+	for i := 0; i < burst; i++ {
+		busy.Write([]byte(fmt.Sprintf("b%d\n", i)))
+	}
+	time.Sleep(30 * time.Millisecond) // the loop is parked on the busy association's full queue
+	close(gateOthers)                 // more closures than the notification channel holds
+	time.Sleep(30 * time.Millisecond)
+	close(gateBusy)
+	ask := func(c net.Conn, tag string) bool {
+		buf := make([]byte, 256)
+		for try := 0; try < 4; try++ {
+			c.Write([]byte(tag + "\n"))
+			c.SetReadDeadline(time.Now().Add(500 * time.Millisecond))
+			for {
+				n, err := c.Read(buf)
+				if err != nil {
+					break
+				}
+				if strings.TrimSpace(string(buf[:n])) == "R:"+tag {
+					return true
+				}
+			}
+		}
+		return false
+	}
+	fresh := dial()
+	conns = append(conns, fresh)
+	if !ask(fresh, "fresh") {
+		return "udp-loop-stuck", fmt.Sprintf("after a burst of %d datagrams to a busy association and the end of %d other associations, a new client is not served any more (4 datagrams in 2 s unanswered)", burst, others)
+	}
+	if !ask(busy, "again") {
+		return "udp-loop-stuck", "the formerly busy client is not served by a fresh association after its handler ended"
+	}
+	return "", ""
 }
